@@ -461,6 +461,13 @@ func (c *Cursor) Filter(ctx context.Context, idxStr string, val []interface{}) e
 		op := Op(opInt)
 		c.ops[i] = op
 		c.operands[i] = NewKey(val[i])
+		if c.operands[i].IsNull() {
+			// a comparison with NULL is never true: no row qualifies
+			c.currentKey = nil
+			c.currentRow = nil
+			c.eof = true
+			return nil
+		}
 		if op == OpLT || op == OpLE || op == OpEQ {
 			if c.max == nil || c.max != nil && c.operands[i].Order(c.max) < 0 {
 				c.max = c.operands[i]
